@@ -93,10 +93,13 @@ def outcome_of(engine, text, options=None):
 
 
 def ref(config, text):
+    """Outcome of the text on a fresh engine built for it alone - in a fresh
+    process, so that building the reference cannot repair (or disturb)
+    process-global state of the run being judged."""
     k = (config, text)
     r = _refs.get(k)
     if r is None:
-        r = _refs[k] = outcome_of(make_engine(config), text)
+        r = _refs[k] = core.fork_map(_ref_chunk, [(config, [text])], 1)[0][0][2]
     return r
 
 
@@ -305,6 +308,10 @@ def prepare(params, replay=False):
     core.import_yaql()
     install_token_seam()
     if replay:
+        # the same process history as a batch worker: all shared engines
+        # exist, created in the same order, before the first run
+        for c in CONFIGS:
+            shared_engine(c)
         return {}
     root = int(os.environ.get('VERIF_SEED', '0') or 0)
     jobs = []
@@ -313,13 +320,9 @@ def prepare(params, replay=False):
         ts = _corpus[c]
         for i in range(0, len(ts), 6):
             jobs.append((c, ts[i:i + 6]))
-    import multiprocessing
-    from concurrent.futures import ProcessPoolExecutor
-    with ProcessPoolExecutor(max_workers=core.NPROC,
-                             mp_context=multiprocessing.get_context('fork')) as ex:
-        for res in ex.map(_ref_chunk, jobs):
-            for c, t, o in res:
-                _refs[(c, t)] = o
+    for res in core.fork_map(_ref_chunk, jobs):
+        for c, t, o in res:
+            _refs[(c, t)] = o
     nvalid = sum(1 for o in _refs.values() if o[0] == 'ok')
     for c in CONFIGS:
         shared_engine(c)
